@@ -5,10 +5,12 @@ import (
 	"os"
 
 	"verif/checks/c13"
+	"verif/checks/c38"
 )
 
 var checks = map[string]func(){
 	"C13": c13.Main,
+	"C38": c38.Main,
 }
 
 func main() {
